@@ -9,7 +9,7 @@ from d42.declaration.types import (AnySchema, DictSchema, GenericTypeAliasSchema
 def children_map(s, f):
     """a copy of `s` whose direct sub-schemas are replaced by f(sub)"""
     p = s.props
-    if isinstance(s, custom.FwdSchema):
+    if isinstance(s, custom.FWD_CLASSES):
         return s.__class__(p.update(inner=f(p.inner)))
     if isinstance(s, ListSchema):
         upd = {}
@@ -49,7 +49,7 @@ def wrap_random(s, rnd, prob=0.3):
 
 def erase_custom(s):
     def f(x):
-        return x.props.inner if isinstance(x, custom.FwdSchema) else x
+        return x.props.inner if isinstance(x, custom.FWD_CLASSES) else x
     return deep_map(s, f)
 
 
